@@ -7,15 +7,21 @@ package processor
 import (
 	"sync"
 
+	"github.com/free5gc/chf/cdr/cdrFile"
 	chf_context "github.com/free5gc/chf/internal/context"
 )
 
 func verif_forall[T any](f func(T) bool) bool { return true }
 
+// verif_preserved: "loop k: preserved n int :: g :: e" - e(n) has the same value at the loop head and
+// at the end of the body for every n with g(n); proved by induction on n (interpreted by govc)
+func verif_preserved(g func(int) bool, e func(int) int) bool { return true }
+
 // verif_held: the mutex is held by the current request (interpreted by govc)
 func verif_held(mu *sync.Mutex) bool { return true }
 
 var _ = chf_context.GetSelf
+var _ = cdrFile.SpecFileOK
 
 // ---- CDR life cycle (C02, C11) ------------------------------------------------------------
 
@@ -51,3 +57,21 @@ var _ = chf_context.GetSelf
 //@   ensures partialRecord ==> (result1 == nil) == (ue.Cdr[sessionId] != nil && ue.Cdr[sessionId].ChargingFunctionRecord != nil)
 //@   ensures partialRecord && result1 == nil ==> result0 == ue.Cdr[sessionId] && result0.ChargingFunctionRecord.RecordSequenceNumber != nil
 //@   modifies field(chf_context.GetSelf(), LocalRecordSequenceNumber), field(ue.Cdr[sessionId].ChargingFunctionRecord, RecordSequenceNumber)
+
+// ---- CDR file (C03) ---------------------------------------------------------------------------
+
+// dumpCdrFile hands Encoding a structure whose length fields describe exactly what is written:
+// every CdrLength equals its payload length (records longer than 65535 octets are refused),
+// FileLength is the header plus all records, NumberOfCdrsInFile the number of records.
+// Environment assumption at the call of Encoding: the file is shorter than 4 GiB (the records
+// of one subscriber are held in memory), so the 32-bit file length does not wrap.
+//@ func dumpCdrFile [C03]
+//@   linear cdrfile.CdrList
+//@   loop 0: invariant 0 <= ITER && ITER <= len(records) && len(cdrfile.CdrList) == ITER
+//@   loop 0: invariant cdrfile.Hdr.HeaderLength == 52 && cdrfile.Hdr.HighReleaseIdentifier == 0 && cdrfile.Hdr.LowReleaseIdentifier == 0 && len(cdrfile.Hdr.CDRRouteingFilter) == 0 && len(cdrfile.Hdr.PrivateExtension) == 0 && cdrfile.Hdr.LengthOfCdrRouteingFilter == 0 && cdrfile.Hdr.LengthOfPrivateExtension == 0
+//@   loop 0: invariant cdrfile.Hdr.NumberOfCdrsInFile == uint32(len(records))
+//@   loop 0: invariant forall j int :: 0 <= j && j < ITER ==> int(cdrfile.CdrList[j].Hdr.CdrLength) == len(cdrfile.CdrList[j].CdrByte) && cdrfile.CdrList[j].Hdr.ReleaseIdentifier == 0
+//@   loop 0: preserved n int :: n <= ITER :: cdrFile.SpecRecsLen(cdrfile.CdrList, n)
+//@   loop 0: invariant cdrfile.Hdr.FileLength == uint32(52+cdrFile.SpecRecsLen(cdrfile.CdrList, ITER))
+//@   assume "cdrfile.Encoding(": len(records) < 1<<32 && forall n int :: 0 <= n && n <= len(cdrfile.CdrList) ==> 0 <= cdrFile.SpecRecsLen(cdrfile.CdrList, n) && cdrFile.SpecRecsLen(cdrfile.CdrList, n) < 1<<32-52
+//@   assert "cdrfile.Encoding(": cdrFile.SpecFileOK(cdrfile)
